@@ -599,7 +599,11 @@ class BareGitStore(GitStore):
             try:
                 tree = self.repo.object_store[ctag.encode("ascii")]
             except KeyError as exc:
-                raise InvalidCTag(ctag) from exc
+                # The ctag of a repository without commits is the id of the
+                # empty tree, which is never written to the object store.
+                if ctag.encode("ascii") != Tree().id:
+                    raise InvalidCTag(ctag) from exc
+                tree = Tree()
         for name, mode, sha in tree.iteritems():
             name = name.decode(DEFAULT_ENCODING)
             if name == CONFIG_FILENAME:
